@@ -10,6 +10,7 @@ open Nuts
 structure Fixed (cfg : Cfg) : Prop where
   notFound : cfg.notFoundIsUncommitted = true
   delDid : cfg.rollbackDeletesCreatedDID = true
+  wholeTx : cfg.sweepWholeTx = true
 
 /-! ### generic list facts -/
 
@@ -52,8 +53,8 @@ def Consec : List Ver → Prop
   | v :: vs => v.n = vs.length ∧ Consec vs
 
 /-- what the versions of all DIDs of one subject have in common -/
-def sig (r : DidRow) : List (Nat × Nat × List String × Option Pending) :=
-  r.vers.map (fun v => (v.n, v.ts, v.c.svcs, v.pending))
+def sig (r : DidRow) : List (Nat × List String × Option Pending) :=
+  r.vers.map (fun v => (v.n, v.c.svcs, v.pending))
 
 structure Inv (dids : List DidRow) (next : Nat) : Prop where
   idLt : ∀ r ∈ dids, r.id < next
@@ -211,11 +212,11 @@ theorem consec_clear (t : Nat) : ∀ vs : List Ver, Consec vs → Consec (vs.map
     exact ⟨h.1, consec_clear t vs h.2⟩
 
 theorem sig_clearRow (t : Nat) (r : DidRow) :
-    sig (clearRow t r) = (sig r).map (fun x => (x.1, x.2.1, x.2.2.1, clearP t x.2.2.2)) := by
+    sig (clearRow t r) = (sig r).map (fun x => (x.1, x.2.1, clearP t x.2.2)) := by
   simp only [sig, clearRow, List.map_map]
   apply List.map_congr_left
   intro v _
-  simp [clearTx_n, clearTx_ts, clearTx_c, clearTx_pending]
+  simp [clearTx_n, clearTx_c, clearTx_pending]
 
 theorem inv_clear {dids : List DidRow} {n : Nat} (t : Nat) (h : Inv dids n) : Inv (dids.map (clearRow t)) n := by
   rw [map_eq_filterMap (clearRow t) (fun r => some (clearRow t r)) dids (fun _ _ => rfl)]
@@ -363,21 +364,21 @@ theorem rowOp_svcs (o : Op) (k : Nat) (cur : Option Content) :
   cases o <;> cases cur <;> simp [rowOp, rowOpS, Content.empty]
   all_goals (split <;> simp)
 
-def nextVersionS (sg : List (Nat × Nat × List String × Option Pending)) : Nat :=
+def nextVersionS (sg : List (Nat × List String × Option Pending)) : Nat :=
   match sg with
   | [] => 0
   | x :: _ => x.1 + 1
 
-def pushSig (o : Op) (base now : Nat) (sg : List (Nat × Nat × List String × Option Pending)) :
-    List (Nat × Nat × List String × Option Pending) :=
-  match rowOpS o (sg.head?.map (·.2.2.1)) with
-  | some svcs => (nextVersionS sg, now, svcs, some { typ := o.chType, tx := base }) :: sg
+def pushSig (o : Op) (base : Nat) (sg : List (Nat × List String × Option Pending)) :
+    List (Nat × List String × Option Pending) :=
+  match rowOpS o (sg.head?.map (·.2.1)) with
+  | some svcs => (nextVersionS sg, svcs, some { typ := o.chType, tx := base }) :: sg
   | none => sg
 
 theorem sig_pushRow (o : Op) (base now : Nat) (r : DidRow) (hs : r.subject = o.subject) :
-    sig (pushRow o base now r) = pushSig o base now (sig r) := by
+    sig (pushRow o base now r) = pushSig o base (sig r) := by
   have h1 := rowOp_svcs o (base + r.id) (r.vers.head?.map (·.c))
-  have h2 : (sig r).head?.map (·.2.2.1) = (r.vers.head?.map (·.c)).map (·.svcs) := by
+  have h2 : (sig r).head?.map (·.2.1) = (r.vers.head?.map (·.c)).map (·.svcs) := by
     unfold sig; cases r.vers <;> simp
   have h3 : nextVersionS (sig r) = nextVersion r.vers := by
     unfold sig nextVersionS nextVersion; cases r.vers <;> simp
@@ -710,7 +711,7 @@ theorem headTx_of_sig {r r2 : DidRow} (h : sig r = sig r2) : headTx r = headTx r
   unfold headTx
   unfold sig at h
   cases h1 : r.vers <;> cases h2 : r2.vers <;> rw [h1, h2] at h <;> simp at h ⊢
-  rw [h.1.2.2.2]
+  rw [h.1.2.2]
 
 theorem selTx_uniform {dids n} (h : Inv dids n) (t : Nat) :
     ∀ r ∈ dids, ∀ r2 ∈ dids, r.subject = r2.subject → selTx t r = selTx t r2 := by
@@ -882,22 +883,26 @@ theorem stepOp_inv {cfg : Cfg} {w : World} (o : Op) (order : List Method) (f : F
 
 /-! ### the sweep, one transaction at a time -/
 
-def isOld (cfg : Cfg) (now : Nat) (v : Ver) : Bool := decide (v.ts + cfg.threshold < now)
-
-def selOld (cfg : Cfg) (now t : Nat) (r : DidRow) : Bool :=
+/-- the rows one sweep step touches: the head version has a change record of transaction `t` and satisfies `Q`
+    (`Q` = "older than the threshold", or — whole-transaction mode — "its transaction has an old change") -/
+def selOld (Q : Ver → Bool) (t : Nat) (r : DidRow) : Bool :=
   match r.vers with
-  | v :: _ => (match v.pending with | some p => p.tx == t | none => false) && isOld cfg now v
+  | v :: _ => (match v.pending with | some p => p.tx == t | none => false) && Q v
   | [] => false
 
-theorem selOld_of_sig {cfg : Cfg} {now t : Nat} {r r2 : DidRow} (h : sig r = sig r2) :
-    selOld cfg now t r = selOld cfg now t r2 := by
+/-- `Q` looks at the change record only -/
+def PendingOnly (Q : Ver → Bool) : Prop := ∀ v v' : Ver, v.pending = v'.pending → Q v = Q v'
+
+theorem selOld_of_sig {Q : Ver → Bool} (hQ : PendingOnly Q) {t : Nat} {r r2 : DidRow} (h : sig r = sig r2) :
+    selOld Q t r = selOld Q t r2 := by
   unfold selOld
   unfold sig at h
   cases h1 : r.vers <;> cases h2 : r2.vers <;> rw [h1, h2] at h <;> simp at h ⊢
-  simp only [isOld, h.1.2.1, h.1.2.2.2]
+  rename_i v vs v2 vs2
+  rw [hQ v v2 h.1.2.2, h.1.2.2]
 
-theorem selOld_true {cfg : Cfg} {now t : Nat} {r : DidRow} (h : selOld cfg now t r = true) :
-    ∃ v vs p, r.vers = v :: vs ∧ v.pending = some p ∧ p.tx = t ∧ isOld cfg now v = true := by
+theorem selOld_true {Q : Ver → Bool} {t : Nat} {r : DidRow} (h : selOld Q t r = true) :
+    ∃ v vs p, r.vers = v :: vs ∧ v.pending = some p ∧ p.tx = t ∧ Q v = true := by
   unfold selOld at h
   cases hv : r.vers with
   | nil => rw [hv] at h; cases h
@@ -910,26 +915,33 @@ theorem selOld_true {cfg : Cfg} {now t : Nat} {r : DidRow} (h : selOld cfg now t
       rw [hp] at h
       exact ⟨v, vs, p, rfl, hp, by simpa using h.1, h.2⟩
 
-theorem selOld_intro {cfg : Cfg} {now t : Nat} {r : DidRow} {v : Ver} {vs : List Ver} {p : Pending}
-    (hv : r.vers = v :: vs) (hp : v.pending = some p) (ht : p.tx = t) (ho : isOld cfg now v = true) :
-    selOld cfg now t r = true := by
+theorem selOld_intro {Q : Ver → Bool} {t : Nat} {r : DidRow} {v : Ver} {vs : List Ver} {p : Pending}
+    (hv : r.vers = v :: vs) (hp : v.pending = some p) (ht : p.tx = t) (ho : Q v = true) :
+    selOld Q t r = true := by
   unfold selOld
   rw [hv]
   simp [hp, ht, ho]
 
-structure Compat (cfg : Cfg) (now : Nat) (old : List Change) (ts : List Nat) (dids : List DidRow) : Prop where
+structure Compat (Q : Ver → Bool) (old : List Change) (ts : List Nat) (dids : List DidRow) : Prop where
   sound : ∀ ch ∈ old, ch.tx ∈ ts → ∃ r ∈ dids, ch.did = r.id ∧ ∃ v vs p, r.vers = v :: vs ∧ v.pending = some p ∧
-    ch.row = v.row ∧ ch.typ = p.typ ∧ p.tx = ch.tx ∧ isOld cfg now v = true
-  complete : ∀ r ∈ dids, ∀ v vs p, r.vers = v :: vs → v.pending = some p → p.tx ∈ ts → isOld cfg now v = true →
+    ch.row = v.row ∧ ch.typ = p.typ ∧ p.tx = ch.tx ∧ Q v = true
+  complete : ∀ r ∈ dids, ∀ v vs p, r.vers = v :: vs → v.pending = some p → p.tx ∈ ts → Q v = true →
     ∃ ch ∈ old, ch.did = r.id ∧ ch.row = v.row ∧ ch.typ = p.typ ∧ ch.tx = p.tx
-  pend : ∀ r ∈ dids, ∀ v ∈ r.vers, ∀ p, v.pending = some p → isOld cfg now v = true → p.tx ∈ ts
+  pend : ∀ r ∈ dids, ∀ v ∈ r.vers, ∀ p, v.pending = some p → Q v = true → p.tx ∈ ts
 
-theorem isOld_clearTx (cfg : Cfg) (now t : Nat) (v : Ver) : isOld cfg now (clearTx t v) = isOld cfg now v := by
-  unfold isOld; rw [clearTx_ts]
+theorem clearTx_eq_of_some {t : Nat} {v : Ver} {p : Pending} (h : (clearTx t v).pending = some p) : clearTx t v = v := by
+  unfold clearTx at h ⊢
+  split
+  · rename_i q hq
+    split
+    · rename_i he
+      rw [hq] at h; simp only [he, if_true] at h; cases h
+    · rfl
+  · rfl
 
-theorem groupOf_old {cfg : Cfg} {now t : Nat} {old : List Change} {ts : List Nat} {dids : List DidRow}
-    (hc : Compat cfg now old (t :: ts) dids) :
-    GroupOf (selOld cfg now t) (old.filter (fun ch => ch.tx = t)) dids := by
+theorem groupOf_old {Q : Ver → Bool} {t : Nat} {old : List Change} {ts : List Nat} {dids : List DidRow}
+    (hc : Compat Q old (t :: ts) dids) :
+    GroupOf (selOld Q t) (old.filter (fun ch => ch.tx = t)) dids := by
   constructor
   · intro ch hch
     rcases List.mem_filter.1 hch with ⟨hold, htx⟩
@@ -942,11 +954,11 @@ theorem groupOf_old {cfg : Cfg} {now t : Nat} {old : List Change} {ts : List Nat
     exact ⟨ch, List.mem_filter.2 ⟨hch, by simp [htx, hptx]⟩, hid, v, vs, p, hv, hp, hrow, htyp⟩
 
 /-- the rows after the deletion part of one sweep step -/
-def sweepRows (cfg : Cfg) (now t : Nat) (b : Bool) (dids : List DidRow) : List DidRow :=
-  if b = true then dids else dids.filterMap (dropSel cfg (selOld cfg now t))
+def sweepRows (cfg : Cfg) (Q : Ver → Bool) (t : Nat) (b : Bool) (dids : List DidRow) : List DidRow :=
+  if b = true then dids else dids.filterMap (dropSel cfg (selOld Q t))
 
-theorem sweepRows_from {cfg : Cfg} {now t : Nat} {b : Bool} {dids : List DidRow} :
-    ∀ r0 ∈ sweepRows cfg now t b dids, ∃ r ∈ dids, r0 = r ∨ ∃ v vs, r.vers = v :: vs ∧ r0 = { r with vers := vs } := by
+theorem sweepRows_from {cfg : Cfg} {Q : Ver → Bool} {t : Nat} {b : Bool} {dids : List DidRow} :
+    ∀ r0 ∈ sweepRows cfg Q t b dids, ∃ r ∈ dids, r0 = r ∨ ∃ v vs, r.vers = v :: vs ∧ r0 = { r with vers := vs } := by
   intro r0 hr0
   unfold sweepRows at hr0
   split at hr0
@@ -964,17 +976,17 @@ theorem sweepRows_from {cfg : Cfg} {now t : Nat} {b : Bool} {dids : List DidRow}
       · cases hF; exact Or.inl rfl
     · cases hF; exact Or.inl rfl
 
-theorem sweepRows_keeps {cfg : Cfg} {now t : Nat} {b : Bool} {dids : List DidRow} :
-    ∀ r ∈ dids, selOld cfg now t r = false → r ∈ sweepRows cfg now t b dids := by
+theorem sweepRows_keeps {cfg : Cfg} {Q : Ver → Bool} {t : Nat} {b : Bool} {dids : List DidRow} :
+    ∀ r ∈ dids, selOld Q t r = false → r ∈ sweepRows cfg Q t b dids := by
   intro r hr hs
   unfold sweepRows
   split
   · exact hr
   · exact List.mem_filterMap.2 ⟨r, hr, by simp [dropSel, hs]⟩
 
-theorem sweepApply_dids {cfg : Cfg} {now t : Nat} {old : List Change} {ts : List Nat} (w : World) (b : Bool)
-    (h : Inv w.dids w.next) (hc : Compat cfg now old (t :: ts) w.dids) :
-    (sweepApply cfg w (old.filter (fun ch => ch.tx = t)) t b).dids = (sweepRows cfg now t b w.dids).map (clearRow t) := by
+theorem sweepApply_dids {cfg : Cfg} {Q : Ver → Bool} {t : Nat} {old : List Change} {ts : List Nat} (w : World) (b : Bool)
+    (h : Inv w.dids w.next) (hc : Compat Q old (t :: ts) w.dids) :
+    (sweepApply cfg w (old.filter (fun ch => ch.tx = t)) t b).dids = (sweepRows cfg Q t b w.dids).map (clearRow t) := by
   unfold sweepApply sweepRows
   cases b with
   | true => simp [deleteLogTx_dids]
@@ -982,23 +994,23 @@ theorem sweepApply_dids {cfg : Cfg} {now t : Nat} {old : List Change} {ts : List
     simp only [Bool.false_eq_true, if_false, deleteLogTx_dids]
     rw [deleteChanges_dids w h (groupOf_old hc)]
 
-theorem sweepApply_spec {cfg : Cfg} {now t : Nat} {old : List Change} {ts : List Nat} (w : World) (b : Bool)
-    (hfix : Fixed cfg) (h : Inv w.dids w.next) (hc : Compat cfg now old (t :: ts) w.dids) (hnt : t ∉ ts) :
-    Inv ((sweepRows cfg now t b w.dids).map (clearRow t)) w.next ∧
-    Compat cfg now old ts ((sweepRows cfg now t b w.dids).map (clearRow t)) := by
+theorem sweepApply_spec {cfg : Cfg} {Q : Ver → Bool} {t : Nat} {old : List Change} {ts : List Nat} (w : World) (b : Bool)
+    (hfix : Fixed cfg) (hQ : PendingOnly Q) (h : Inv w.dids w.next) (hc : Compat Q old (t :: ts) w.dids) (hnt : t ∉ ts) :
+    Inv ((sweepRows cfg Q t b w.dids).map (clearRow t)) w.next ∧
+    Compat Q old ts ((sweepRows cfg Q t b w.dids).map (clearRow t)) := by
   constructor
   · apply inv_clear
     unfold sweepRows
     split
     · exact h
-    · exact inv_dropSel _ hfix h (fun r hr r2 hr2 hs => selOld_of_sig (h.uniform r hr r2 hr2 hs)) (groupOf_old hc).pending
+    · exact inv_dropSel _ hfix h (fun r hr r2 hr2 hs => selOld_of_sig hQ (h.uniform r hr r2 hr2 hs)) (groupOf_old hc).pending
   · have neT : ∀ x ∈ ts, x ≠ t := fun x hx he => hnt (he ▸ hx)
     constructor
     · intro ch hch htx
       rcases hc.sound ch hch (List.mem_cons_of_mem _ htx) with ⟨r, hr, hid, v, vs, p, hv, hp, hrow, htyp, hptx, ho⟩
       have hne : p.tx ≠ t := by rw [hptx]; exact neT _ htx
-      have hsel : selOld cfg now t r = false := by
-        cases hs : selOld cfg now t r with
+      have hsel : selOld Q t r = false := by
+        cases hs : selOld Q t r with
         | false => rfl
         | true =>
           rcases selOld_true hs with ⟨v2, vs2, p2, hv2, hp2, hptx2, _⟩
@@ -1010,7 +1022,8 @@ theorem sweepApply_spec {cfg : Cfg} {now t : Nat} {old : List Change} {ts : List
       · simp [clearRow, hv]
       · rw [clearTx_pending, hp]; simp [clearP, hne]
       · rw [clearTx_row]; exact hrow
-      · rw [isOld_clearTx]; exact ho
+      · have : clearTx t v = v := clearTx_eq_of_some (p := p) (by rw [clearTx_pending, hp]; simp [clearP, hne])
+        rw [this]; exact ho
     · intro r' hr' v' vs' p hv' hp' hptx ho'
       rcases List.mem_map.1 hr' with ⟨r0, hr0, rfl⟩
       simp only [clearRow] at hv'
@@ -1020,9 +1033,10 @@ theorem sweepApply_spec {cfg : Cfg} {now t : Nat} {old : List Change} {ts : List
         rw [hv0] at hv'
         simp only [List.map_cons, List.cons.injEq] at hv'
         rcases hv' with ⟨rfl, rfl⟩
+        have heq := clearTx_eq_of_some hp'
         rw [clearTx_pending] at hp'
         have hp0 := (clearP_some hp').1
-        rw [isOld_clearTx] at ho'
+        rw [heq] at ho'
         rcases sweepRows_from r0 hr0 with ⟨r, hr, rfl | ⟨v, vs, hv, rfl⟩⟩
         · rcases hc.complete r0 hr v0 vs0 p hv0 hp0 (List.mem_cons_of_mem _ hptx) ho' with ⟨ch, hch, hid, hrow, htyp, htx⟩
           exact ⟨ch, hch, hid, by rw [clearTx_row]; exact hrow, htyp, htx⟩
@@ -1032,9 +1046,10 @@ theorem sweepApply_spec {cfg : Cfg} {now t : Nat} {old : List Change} {ts : List
     · intro r' hr' v' hv' p hp' ho'
       rcases List.mem_map.1 hr' with ⟨r0, hr0, rfl⟩
       rcases List.mem_map.1 hv' with ⟨v0, hv0, rfl⟩
+      have heq := clearTx_eq_of_some hp'
       rw [clearTx_pending] at hp'
       have hp0 := clearP_some hp'
-      rw [isOld_clearTx] at ho'
+      rw [heq] at ho'
       have hmem : ∃ r ∈ w.dids, v0 ∈ r.vers := by
         rcases sweepRows_from r0 hr0 with ⟨r, hr, rfl | ⟨v, vs, hv, rfl⟩⟩
         · exact ⟨r0, hr, hv0⟩
@@ -1178,7 +1193,8 @@ theorem fate_clear (t : Nat) (dids : List DidRow) : Fate dids (dids.map (clearRo
     rw [clearTx_pending] at hp
     exact ⟨v, hv, (clearP_some hp).1, (clearTx_ts t v).symm⟩
 
-theorem fate_sweepRows (cfg : Cfg) (now t : Nat) (b : Bool) (dids : List DidRow) : Fate dids (sweepRows cfg now t b dids) := by
+theorem fate_sweepRows (cfg : Cfg) (Q : Ver → Bool) (t : Nat) (b : Bool) (dids : List DidRow) :
+    Fate dids (sweepRows cfg Q t b dids) := by
   intro r0 hr0
   rcases sweepRows_from r0 hr0 with ⟨r, hr, rfl | ⟨v, vs, hv, rfl⟩⟩
   · exact ⟨r0, hr, rfl, ⟨0, by simp⟩, fun v hv p hp => ⟨v, hv, hp, rfl⟩⟩
@@ -1191,9 +1207,9 @@ theorem sweepApply_fields (cfg : Cfg) (w : World) (group : List Change) (t : Nat
     (sweepApply cfg w group t b).now = w.now := by
   cases b <;> exact ⟨rfl, rfl, rfl⟩
 
-theorem sweepTxs_spec {cfg : Cfg} (hfix : Fixed cfg) (now : Nat) (old : List Change) :
-    ∀ (ts : List Nat) (w : World), ts.Nodup → Inv w.dids w.next → Compat cfg now old ts w.dids →
-      ∃ w', sweepTxs cfg old ts w = .ok w' ∧ Inv w'.dids w'.next ∧ Compat cfg now old [] w'.dids ∧
+theorem sweepTxs_spec {cfg : Cfg} (hfix : Fixed cfg) (Q : Ver → Bool) (hQ : PendingOnly Q) (old : List Change) :
+    ∀ (ts : List Nat) (w : World), ts.Nodup → Inv w.dids w.next → Compat Q old ts w.dids →
+      ∃ w', sweepTxs cfg old ts w = .ok w' ∧ Inv w'.dids w'.next ∧ Compat Q old [] w'.dids ∧
         w'.next = w.next ∧ w'.pub = w.pub ∧ w'.now = w.now ∧ Keeps w.dids w'.dids ∧ Fate w.dids w'.dids
   | [], w, _, h, hc => ⟨w, rfl, h, hc, rfl, rfl, rfl, Keeps.refl _, Fate.refl _⟩
   | t :: ts, w, hnd, h, hc => by
@@ -1203,11 +1219,11 @@ theorem sweepTxs_spec {cfg : Cfg} (hfix : Fixed cfg) (now : Nat) (old : List Cha
     rcases committedLoop_ok hfix.notFound w.pub (old.filter (fun ch => ch.tx = t)) with ⟨b, hb⟩
     rw [hb]
     simp only
-    have hd := sweepApply_dids w b h hc
+    have hd := sweepApply_dids (cfg := cfg) w b h hc
     have hf := sweepApply_fields cfg w (old.filter (fun ch => ch.tx = t)) t b
-    have hs := sweepApply_spec w b hfix h hc hnd.1
+    have hs := sweepApply_spec w b hfix hQ h hc hnd.1
     rw [← hd, ← hf.1] at hs
-    rcases sweepTxs_spec hfix now old ts _ hnd.2 hs.1 hs.2 with ⟨w', hw', hi, hcc, hn, hp, hnow, hk, hfate⟩
+    rcases sweepTxs_spec hfix Q hQ old ts _ hnd.2 hs.1 hs.2 with ⟨w', hw', hi, hcc, hn, hp, hnow, hk, hfate⟩
     refine ⟨w', hw', hi, hcc, by rw [hn, hf.1], by rw [hp, hf.2.1], by rw [hnow, hf.2.2], ?_, ?_⟩
     · refine Keeps.trans ?_ hk
       rw [hd]
@@ -1218,32 +1234,39 @@ theorem sweepTxs_spec {cfg : Cfg} (hfix : Fixed cfg) (now : Nat) (old : List Cha
       · exact keeps_dropSel _ h (groupOf_old hc).pending
     · refine Fate.trans ?_ hfate
       rw [hd]
-      exact Fate.trans (fate_sweepRows cfg now t b w.dids) (fate_clear t _)
+      exact Fate.trans (fate_sweepRows cfg Q t b w.dids) (fate_clear t _)
 
-theorem compat_init {cfg : Cfg} {w : World} (h : Inv w.dids w.next) (ts : List Nat)
-    (hts : ∀ ch ∈ oldChanges cfg w, ch.tx ∈ ts) : Compat cfg w.now (oldChanges cfg w) ts w.dids := by
-  have memOld : ∀ ch, ch ∈ oldChanges cfg w ↔ ∃ r ∈ w.dids, ∃ v ∈ r.vers, ∃ p, v.pending = some p ∧ isOld cfg w.now v = true ∧
+/-- whole-transaction mode: the change record belongs to a transaction that has an old change -/
+def inOldTx (cfg : Cfg) (w : World) (v : Ver) : Bool :=
+  match v.pending with
+  | some p => (oldChanges cfg w).any (fun o => o.tx = p.tx)
+  | none => false
+
+theorem inOldTx_pendingOnly (cfg : Cfg) (w : World) : PendingOnly (inOldTx cfg w) := by
+  intro v v' h; unfold inOldTx; rw [h]
+
+theorem mem_allChanges (w : World) (ch : Change) :
+    ch ∈ allChanges w ↔ ∃ r ∈ w.dids, ∃ v ∈ r.vers, ∃ p, v.pending = some p ∧
       ch = { did := r.id, method := r.method, row := v.row, typ := p.typ, tx := p.tx, ts := v.ts, c := v.c } := by
+  unfold allChanges pendingOf
+  simp only [List.mem_flatMap, List.mem_filterMap]
+  constructor
+  · rintro ⟨r, hr, v, hv, hm⟩
+    cases hp : v.pending with
+    | none => rw [hp] at hm; cases hm
+    | some p =>
+      rw [hp] at hm
+      simp only [Option.map_some, Option.some.injEq] at hm
+      exact ⟨r, hr, v, hv, p, hp, hm.symm⟩
+  · rintro ⟨r, hr, v, hv, p, hp, rfl⟩
+    exact ⟨r, hr, v, hv, by rw [hp]; rfl⟩
+
+theorem compat_init {cfg : Cfg} {w : World} (hfix : Fixed cfg) (h : Inv w.dids w.next) (ts : List Nat)
+    (hts : ∀ ch ∈ sweepChanges cfg w, ch.tx ∈ ts) : Compat (inOldTx cfg w) (sweepChanges cfg w) ts w.dids := by
+  have memSweep : ∀ ch, ch ∈ sweepChanges cfg w ↔ ch ∈ allChanges w ∧ (oldChanges cfg w).any (fun o => o.tx = ch.tx) = true := by
     intro ch
-    unfold oldChanges changesOf
-    simp only [List.mem_flatMap, List.mem_filterMap]
-    constructor
-    · rintro ⟨r, hr, v, hv, hm⟩
-      cases hp : v.pending with
-      | none => rw [hp] at hm; cases hm
-      | some p =>
-        rw [hp] at hm
-        simp only at hm
-        split at hm
-        · rename_i ho
-          cases hm
-          exact ⟨r, hr, v, hv, p, hp, by simp [isOld, ho], rfl⟩
-        · cases hm
-    · rintro ⟨r, hr, v, hv, p, hp, ho, rfl⟩
-      refine ⟨r, hr, v, hv, ?_⟩
-      rw [hp]
-      simp only [isOld, decide_eq_true_eq] at ho
-      simp [ho]
+    unfold sweepChanges
+    rw [if_pos hfix.wholeTx, List.mem_filter]
   have headOf : ∀ r ∈ w.dids, ∀ v ∈ r.vers, ∀ p, v.pending = some p → ∃ vs, r.vers = v :: vs := by
     intro r hr v hv p hp
     cases hvs : r.vers with
@@ -1256,33 +1279,94 @@ theorem compat_init {cfg : Cfg} {w : World} (h : Inv w.dids w.next) (ts : List N
         rw [this] at hp; cases hp
   constructor
   · intro ch hch _
-    rcases (memOld ch).1 hch with ⟨r, hr, v, hv, p, hp, ho, rfl⟩
+    rcases (memSweep ch).1 hch with ⟨hall, hany⟩
+    rcases (mem_allChanges w ch).1 hall with ⟨r, hr, v, hv, p, hp, rfl⟩
     rcases headOf r hr v hv p hp with ⟨vs, hvs⟩
-    exact ⟨r, hr, rfl, v, vs, p, hvs, hp, rfl, rfl, rfl, ho⟩
+    exact ⟨r, hr, rfl, v, vs, p, hvs, hp, rfl, rfl, rfl, by simp only [inOldTx, hp]; exact hany⟩
   · intro r hr v vs p hv hp _ ho
-    refine ⟨_, (memOld _).2 ⟨r, hr, v, by rw [hv]; exact List.mem_cons_self .., p, hp, ho, rfl⟩, rfl, rfl, rfl, rfl⟩
+    refine ⟨{ did := r.id, method := r.method, row := v.row, typ := p.typ, tx := p.tx, ts := v.ts, c := v.c },
+      (memSweep _).2 ⟨(mem_allChanges w _).2 ⟨r, hr, v, by rw [hv]; exact List.mem_cons_self .., p, hp, rfl⟩, ?_⟩, rfl, rfl, rfl, rfl⟩
+    simpa only [inOldTx, hp] using ho
   · intro r hr v hv p hp ho
-    exact hts _ ((memOld _).2 ⟨r, hr, v, hv, p, hp, ho, rfl⟩)
+    refine hts { did := r.id, method := r.method, row := v.row, typ := p.typ, tx := p.tx, ts := v.ts, c := v.c }
+      ((memSweep _).2 ⟨(mem_allChanges w _).2 ⟨r, hr, v, hv, p, hp, rfl⟩, ?_⟩)
+    simpa only [inOldTx, hp] using ho
 
 theorem sweep_spec {cfg : Cfg} {w : World} (ord : List Nat → List Nat) (hfix : Fixed cfg)
     (hord : ∀ l, (ord l).Perm l) (h : Inv w.dids w.next) :
     (sweep cfg ord w).2 = "ok" ∧ Inv (sweep cfg ord w).1.dids (sweep cfg ord w).1.next ∧
     (sweep cfg ord w).1.next = w.next ∧ (sweep cfg ord w).1.pub = w.pub ∧ (sweep cfg ord w).1.now = w.now ∧
     Keeps w.dids (sweep cfg ord w).1.dids ∧ Fate w.dids (sweep cfg ord w).1.dids ∧
-    (∀ r ∈ (sweep cfg ord w).1.dids, ∀ v ∈ r.vers, ∀ p, v.pending = some p → isOld cfg w.now v = false) := by
-  have hperm := hord ((oldChanges cfg w).map (·.tx)).eraseDups
-  have hnd : (ord ((oldChanges cfg w).map (·.tx)).eraseDups).Nodup := hperm.nodup_iff.2 (nodup_eraseDups _)
-  have hts : ∀ ch ∈ oldChanges cfg w, ch.tx ∈ ord ((oldChanges cfg w).map (·.tx)).eraseDups := by
+    (∀ r ∈ (sweep cfg ord w).1.dids, ∀ v ∈ r.vers, ∀ p, v.pending = some p → inOldTx cfg w v = false) := by
+  have hperm := hord ((sweepChanges cfg w).map (·.tx)).eraseDups
+  have hnd : (ord ((sweepChanges cfg w).map (·.tx)).eraseDups).Nodup := hperm.nodup_iff.2 (nodup_eraseDups _)
+  have hts : ∀ ch ∈ sweepChanges cfg w, ch.tx ∈ ord ((sweepChanges cfg w).map (·.tx)).eraseDups := by
     intro ch hch
     exact hperm.mem_iff.2 (List.mem_eraseDups.2 (List.mem_map.2 ⟨ch, hch, rfl⟩))
-  rcases sweepTxs_spec hfix w.now (oldChanges cfg w) _ w hnd h (compat_init h _ hts) with ⟨w', hw', hi, hcc, hn, hp, hnow, hk, hfate⟩
+  rcases sweepTxs_spec hfix (inOldTx cfg w) (inOldTx_pendingOnly cfg w) (sweepChanges cfg w) _ w hnd h
+      (compat_init hfix h _ hts) with ⟨w', hw', hi, hcc, hn, hp, hnow, hk, hfate⟩
   unfold sweep
   simp only [hw']
   refine ⟨trivial, hi, hn, hp, hnow, hk, hfate, ?_⟩
   intro r hr v hv p hpv
-  cases ho : isOld cfg w.now v with
+  cases ho : inOldTx cfg w v with
   | false => rfl
   | true => exact absurd (hcc.pend r hr v hv p hpv ho) (by simp)
+
+/-! ### restamping (clock readings inside a transaction) -/
+
+def restampRow (f : DidRow → Ver → Nat) (r : DidRow) : DidRow :=
+  { r with vers := r.vers.map (fun v => { v with ts := f r v }) }
+
+theorem restamp_dids (f : DidRow → Ver → Nat) (w : World) : (restamp f w).dids = w.dids.map (restampRow f) := rfl
+
+theorem consec_restamp (g : Ver → Nat) : ∀ vs : List Ver, Consec vs → Consec (vs.map (fun v => { v with ts := g v }))
+  | [], _ => trivial
+  | v :: vs, h => by
+    simp only [List.map_cons, Consec, List.length_map]
+    exact ⟨h.1, consec_restamp g vs h.2⟩
+
+theorem inv_restamp {dids : List DidRow} {n : Nat} (f : DidRow → Ver → Nat) (h : Inv dids n) :
+    Inv (dids.map (restampRow f)) n := by
+  rw [map_eq_filterMap (restampRow f) (fun r => some (restampRow f r)) dids (fun _ _ => rfl)]
+  apply inv_filterMap _ h (Nat.le_refl _)
+  · intro r _ r' hF; cases hF; exact ⟨rfl, rfl, rfl⟩
+  · intro r hr r' hF v hv; cases hF
+    rcases List.mem_map.1 hv with ⟨u, hu, rfl⟩
+    exact h.rowLt r hr u hu
+  · intro r hr r' hF v hv p hp; cases hF
+    rcases List.mem_map.1 hv with ⟨u, hu, rfl⟩
+    exact h.txLt r hr u hu p hp
+  · intro r hr r' hF; cases hF
+    have : (restampRow f r).vers.map (·.row) = r.vers.map (·.row) := by
+      simp only [restampRow, List.map_map]
+      apply List.map_congr_left; intro v _; rfl
+    rw [this]; exact h.rowsNodup r hr
+  · intro r hr r2 hr2 hs r' r2' hF hF2; cases hF; cases hF2
+    have e : ∀ x : DidRow, sig (restampRow f x) = sig x := by
+      intro x
+      simp only [sig, restampRow, List.map_map]
+      apply List.map_congr_left; intro v _; rfl
+    rw [e, e]; exact h.uniform r hr r2 hr2 hs
+  · intro r hr r' hF; cases hF
+    exact consec_restamp (f r) _ (h.consec r hr)
+  · intro r hr r' hF v hv; cases hF
+    simp only [restampRow, ← List.map_tail] at hv
+    rcases List.mem_map.1 hv with ⟨u, hu, rfl⟩
+    exact h.topOnly r hr u hu
+  · intro r hr r' hF; cases hF
+    simp only [restampRow, ne_eq, List.map_eq_nil_iff]
+    exact h.noOrphan r hr
+  · intro r hr r' hF v vs p hv hp; cases hF
+    simp only [restampRow] at hv
+    cases hvs : r.vers with
+    | nil => rw [hvs] at hv; cases hv
+    | cons u us =>
+      rw [hvs] at hv
+      simp only [List.map_cons, List.cons.injEq] at hv
+      rcases hv with ⟨rfl, rfl⟩
+      rw [h.createdIff r hr u us p hvs hp]
+      simp
 
 /-! ### reachable worlds -/
 
@@ -1295,6 +1379,7 @@ inductive Reach (cfg : Cfg) : World → Prop
   | tick {w : World} (d : Nat) : Reach cfg w → Reach cfg (tick d w)
   | sweep {w : World} (ord : List Nat → List Nat) :
       Reach cfg w → (∀ l, (ord l).Perm l) → Reach cfg (sweep cfg ord w).1
+  | restamp {w : World} (f : DidRow → Ver → Nat) : Reach cfg w → Reach cfg (restamp f w)
 
 theorem reach_inv {cfg : Cfg} (hfix : Fixed cfg) (hms : cfg.methods.Nodup) {w : World} (h : Reach cfg w) :
     Inv w.dids w.next := by
@@ -1303,6 +1388,7 @@ theorem reach_inv {cfg : Cfg} (hfix : Fixed cfg) (hms : cfg.methods.Nodup) {w : 
   | op o order f _ hc ih => exact stepOp_inv o order f hfix hms ih hc
   | tick d _ ih => exact ih
   | sweep ord _ hord ih => exact (sweep_spec ord hfix hord ih).2.1
+  | restamp f _ ih => exact inv_restamp f ih
 
 /-! ### versions without change record survive every step; a failed commit restores the rows -/
 
